@@ -671,5 +671,116 @@ func TestCheck(t *testing.T) {
 	vlib.RunCases(r, "cells", cells(), runCase, true)
 	r.MarkExhaustive("matrix cells upgrade path x send mode x epoll mode (30 cells, four fixed workloads each: application close from another goroutine while a handler runs (with asynchronous reading in half of the cells), orderly close, client reset while a handler runs and writes, pings and pongs behind every message with slow handlers)")
 	vlib.RunCheck(r, vlib.Check[Case]{Name: "sessions", N: r.Pick(900, 12000), Gen: gen, Run: runCase, Confirm: true, RecordCurrent: true})
+	vlib.RunCases(r, "glued-handshake", gluedCells(), runGlued, true)
 	r.Finish()
+}
+
+// GluedCase: the client does not wait for the 101 response: the upgrade request and the first frames travel in
+// the same segment, so the read that performs the upgrade also carries WebSocket input - valid messages, or a
+// frame that makes the new connection fail at once. Whatever the path does with that input: if the open callback
+// ran, the close callback runs exactly once, and no message callback runs before the open or after the close one.
+type GluedCase struct {
+	Path  string `json:"path"`
+	Mode  string `json:"mode"`
+	Valid int    `json:"valid_messages"`  // valid 8-byte messages glued behind the request
+	Bad   bool   `json:"bad_frame_after"` // followed by a frame with a reserved opcode
+}
+
+func runGlued(c GluedCase) vlib.Result {
+	res := vlib.Result{Classes: []string{"glued-handshake", "path=" + c.Path}}
+	vlib.Logs.Take()
+	s, err := startServer(Case{Path: c.Path, Mode: c.Mode, FrameLimit: 4096, OutSizes: []int{12}, PerWriter: 1})
+	if err != nil {
+		return vlib.Fail("harness: server start: %v", err)
+	}
+	defer s.stop()
+	conn, err := net.DialTimeout("tcp", s.addr, 3*time.Second)
+	if err != nil {
+		return vlib.Fail("harness: dial: %v", err)
+	}
+	defer conn.Close()
+	wire := []byte("GET /ws HTTP/1.1\r\nHost: verif.local\r\nUpgrade: websocket\r\nConnection: Upgrade\r\nSec-WebSocket-Key: dGhlIHNhbXBsZSBub25jZQ==\r\nSec-WebSocket-Version: 13\r\n\r\n")
+	for i := 0; i < c.Valid; i++ {
+		wire = append(wire, vlib.WSFrame{Fin: true, Op: vlib.OpBin, Masked: true, Key: uint32(i + 1), Payload: inPayload(i, 8)}.Encode()...)
+	}
+	if c.Bad {
+		wire = append(wire, vlib.WSFrame{Fin: true, Op: 3, Masked: true, Key: 99, Payload: []byte("reserved opcode")}.Encode()...)
+	}
+	if _, err := conn.Write(wire); err != nil {
+		return vlib.Fail("harness: write: %v", err)
+	}
+	// read until the server closes (bad frame) or everything was handled
+	go func() {
+		buf := make([]byte, 4096)
+		for {
+			_ = conn.SetReadDeadline(time.Now().Add(8 * time.Second))
+			if _, err := conn.Read(buf); err != nil {
+				return
+			}
+		}
+	}()
+	count := func(k string) int {
+		s.log.mu.Lock()
+		defer s.log.mu.Unlock()
+		n := 0
+		for _, e := range s.log.ev {
+			if e.k == k {
+				n++
+			}
+		}
+		return n
+	}
+	vlib.WaitUntil(3*time.Second, func() bool { return count("open-end") > 0 })
+	if count("open-end") == 0 {
+		// the upgrade itself was refused (a path may refuse input behind the request): nothing was opened
+		res.Classes = append(res.Classes, "not-upgraded (nothing asserted)")
+		return res
+	}
+	// RFC 6455 4.1 makes a client wait for the 101 before it sends frames, so what a path does with the glued
+	// input (deliver it, fail on it, lose it in the HTTP server's read buffer) is not asserted. What is: a
+	// connection whose open callback ran gets its close callback, exactly once, when it ends - and the client
+	// ends it now at the latest.
+	vlib.WaitUntil(300*time.Millisecond, func() bool { return count("close") > 0 || count("msg-end") >= c.Valid && !c.Bad })
+	_ = conn.Close()
+	if !vlib.WaitUntil(5*time.Second, func() bool { return count("close") > 0 }) {
+		res.Err = fmt.Errorf("path %s: the open callback ran and the connection has ended (input glued to the handshake: %d valid messages, bad frame %v), but no close callback within 5 s", c.Path, c.Valid, c.Bad)
+		return res
+	}
+	time.Sleep(50 * time.Millisecond)
+	if n := count("close"); n != 1 {
+		res.Err = fmt.Errorf("path %s: %d close callbacks", c.Path, n)
+		return res
+	}
+	s.log.mu.Lock()
+	defer s.log.mu.Unlock()
+	openEnd, closeAt := -1, -1
+	for i, e := range s.log.ev {
+		switch e.k {
+		case "open-end":
+			openEnd = i
+		case "msg-start":
+			if openEnd < 0 {
+				res.Err = fmt.Errorf("path %s: a message callback started before the open callback had returned", c.Path)
+				return res
+			}
+			if closeAt >= 0 {
+				res.Err = fmt.Errorf("path %s: a message callback ran after the close callback", c.Path)
+				return res
+			}
+		case "close":
+			closeAt = i
+		}
+	}
+	res.NonTrivial = true
+	return res
+}
+
+func gluedCells() []GluedCase {
+	var out []GluedCase
+	for _, p := range paths {
+		for _, m := range vlib.Modes {
+			out = append(out, GluedCase{Path: p, Mode: m, Valid: 0, Bad: true}, GluedCase{Path: p, Mode: m, Valid: 3, Bad: false}, GluedCase{Path: p, Mode: m, Valid: 2, Bad: true})
+		}
+	}
+	return out
 }
